@@ -43,7 +43,7 @@ def change_summary(c):
 
 
 def run_inproc(files, flags, *, format_command=None, block_black=False, pyproject=None,
-               workdir=None, keep=False, trace_calls=False, run_tests=True, storage_files=None):
+               workdir=None, keep=False, trace_calls=False, run_tests=True, storage_files=None, active=True):
     """files: {name: str|bytes}.  flags: iterable of category names.
     Returns a dict (see keys below).  Never raises for failures of the code under test."""
     from inline_snapshot import _config, _problems
@@ -80,6 +80,7 @@ def run_inproc(files, flags, *, format_command=None, block_black=False, pyprojec
         with snapshot_env() as state:
             state.update_flags = Flags(flags)
             state.storage = DiscStorage(base / ".storage")
+            state.active = active
             try:
                 with warnings.catch_warnings(record=True) as w:
                     warnings.simplefilter("always")
